@@ -96,8 +96,9 @@ def check(ctx):
     def step_b(st, e, c):
         if e == "cancel" and not c.is_exc:
             return True
-        if e == "wait" and not st and (body_none[0], False) in c.facts_before:
-            return Bad("the block body raised but the group's scope is not cancelled before waiting for the children")
+        if e == "wait" and not st and body_none not in c.facts_before:
+            return Bad("the join waits for the children without the group's scope having been cancelled although the block body may have raised "
+                       "(only `exc_val is None` excuses it - a test for truthiness lets an exception object that is falsy through)")
         return st
 
     ctx.paths("R02-c", aexit, [("cancel", "self.cancel_scope.cancel()"), ("wait", "await self._on_completed_fut")], step_b, False,
